@@ -27,6 +27,7 @@ class Ctx:
         self.driver = common.Driver()
         self.execnet = common.import_execnet()
         self.search_mode = False  # True during the failing-input search (bigger budgets)
+        self.deepen = False       # quick tier, but the anchored source differs from the frozen tree: enlarged budgets
 
     def rng(self, tag):
         return common.rng_for(self.seed, f"{self.prop}:{tag}")
@@ -34,7 +35,11 @@ class Ctx:
     def budget(self, quick, thorough, search=None):
         if self.search_mode:
             return search if search is not None else max(quick * 4, thorough // 4)
-        return thorough if self.thorough else quick
+        if self.thorough:
+            return thorough
+        if self.deepen:
+            return search if search is not None else max(quick * 4, thorough // 4)
+        return quick
 
 
 def main(argv=None):
@@ -50,12 +55,25 @@ def main(argv=None):
         mod = importlib.import_module("harness." + prop.lower())
         proof = common.prove(prop, args.tier)
         ctx = Ctx(prop, args.tier, seed)
+        touched = []
+        if not args.replay and args.tier == "quick" and os.environ.get("VERIF_NO_DEEPEN") != "1":
+            try:
+                from harness import fingerprint
+                touched = fingerprint.changed_for(prop)
+            except Exception:  # noqa: BLE001 — a convenience, never a reason to fail
+                touched = []
+            if touched:
+                ctx.deepen = True
+                print("note: functions this property is anchored in differ from the tree the checks were frozen on (%s%s): "
+                      "running the enlarged budgets" % (", ".join(touched[:4]), " …" if len(touched) > 4 else ""))
         if args.replay:
             with open(args.replay) as f:
                 payload = json.load(f)
             res = mod.replay(ctx, payload)
         else:
             res = mod.run(ctx)
+        if touched:
+            res.extra["anchored_functions_changed_since_freeze"] = touched
         exit_code = 0
         printed = set()
         unknown = []
